@@ -1138,22 +1138,27 @@ theorem below_foldl_recv {D : List Nat} {H : Nat} : ∀ (l : List Msg) (s : Stat
     simp only [List.foldl_cons]
     exact ih (s.recv a) hD (below_recv hD hb a (hl a (by simp))) (fun m hm => hl m (by simp [hm]))
 
-private theorem foldl_max_le (f : Nat → Bool) (g : Nat → Nat) (B : Nat) (hg : ∀ x, g x ≤ B) : ∀ (l : List Nat) (acc : Nat),
-    acc ≤ B → l.foldl (fun m j => if f j then max m (g j) else m) acc ≤ B := by
+private theorem foldl_max_le (f : Nat → Bool) (g : Nat → Nat) (B : Nat) : ∀ (l : List Nat) (acc : Nat),
+    (∀ x ∈ l, f x = true → g x ≤ B) → acc ≤ B → l.foldl (fun m j => if f j then max m (g j) else m) acc ≤ B := by
   intro l
   induction l with
-  | nil => intro acc h; exact h
+  | nil => intro acc _ h; exact h
   | cons a t ih =>
-    intro acc h
+    intro acc hg h
     simp only [List.foldl_cons]
-    apply ih
-    have := hg a
-    split <;> omega
+    apply ih _ (fun x hx => hg x (by simp [hx]))
+    by_cases hfa : f a = true
+    · have := hg a (by simp) hfa
+      simp [hfa]; omega
+    · simp [hfa]; exact h
+
+theorem maxPeerHead_le (s : State) (i B : Nat) (h : ∀ m, m < s.n → s.peerOk i m = true → (s.node m).head ≤ B) :
+    s.maxPeerHead i ≤ B := by
+  unfold State.maxPeerHead
+  exact foldl_max_le _ _ B _ _ (fun x hx hf => h x (List.mem_range.mp hx) hf) (Nat.zero_le _)
 
 theorem below_pull {s : State} {D : List Nat} {H : Nat} (hb : Below s D H) (i : Nat) : Below (s.pull i) D H := by
-  have hmph : s.maxPeerHead i ≤ H := by
-    unfold State.maxPeerHead
-    exact foldl_max_le _ _ H (fun x => (hb.node x).1) _ _ (Nat.zero_le _)
+  have hmph : s.maxPeerHead i ≤ H := maxPeerHead_le s i H (fun m _ _ => (hb.node m).1)
   have key : ∀ d : Node, d.up = (s.node i).up → BelowN s.n H D d → Below (s.setNode i d) D H := by
     intro d hu hd
     refine ⟨?_, ?_, hb.msgs⟩
@@ -1227,5 +1232,442 @@ theorem c05_below_threshold_no_progress (D : List Nat) (H : Nat) (evs : List Ev)
       | restart i => exact absurd rfl (hne _ (by simp) i)
       | setConn c => exact ⟨⟨hb.node, hb.ups, hb.msgs⟩, rfl⟩
     exact ih (s.apply e) (by rw [hstep.2]; exact hD) hstep.1 (fun e' he' => hne e' (by simp [he']))
+
+
+/-! ### the catch-up chain, exactly -/
+
+/-- a node of the healthy side between two sub-rounds: stores exactly `h`, clock and last tick at `c`, the catch-up
+goroutines listed in `P` asleep, nothing in the partial cache -/
+structure Lvl (h c : Nat) (P : List Nat) (d : Node) : Prop where
+  up : d.up = true
+  head : d.head = h
+  clock : d.clock = c
+  tick : d.lastTick = c
+  pend : d.pending = P
+  clean : ∀ r k, d.held r k = false
+
+/-- the catch-up goroutine launched when `h + 1` is appended while the ticked round is `c` -/
+def nextPend (h c : Nat) : List Nat := if h + 1 < c then [h + 1] else []
+
+/-- exact invariant of one node of the healthy side during a sub-round in which `h + 1` is being signed -/
+def Exact (n thr h c : Nat) (S : Nat → Prop) (d : Node) : Prop :=
+  Lvl (h + 1) c (nextPend h c) d ∨
+  (d.up = true ∧ d.head = h ∧ d.clock = c ∧ d.lastTick = c ∧ d.pending = [] ∧ count n d.held (h + 1) < thr ∧
+    (∀ r k, d.held r k = true → r = h + 1) ∧ ∀ k, S k → d.held (h + 1) k = true)
+
+theorem Exact.weaken {n thr h c : Nat} {S S' : Nat → Prop} {d : Node} (hp : Exact n thr h c S d) (hs : ∀ k, S' k → S k) :
+    Exact n thr h c S' d := by
+  rcases hp with hp | ⟨h1, h2, h3, h4, h5, h6, h7, h8⟩
+  · exact Or.inl hp
+  · exact Or.inr ⟨h1, h2, h3, h4, h5, h6, h7, fun k hk => h8 k (hs k hk)⟩
+
+theorem Exact.setSync {n thr h c : Nat} {S : Nat → Prop} {d : Node} (v : Nat) (hp : Exact n thr h c S d) :
+    Exact n thr h c S (d.setSync v) := by
+  rcases hp with hp | hp
+  · exact Or.inl ⟨hp.up, hp.head, hp.clock, hp.tick, hp.pend, hp.clean⟩
+  · exact Or.inr hp
+
+theorem Exact.head {n thr h c : Nat} {S : Nat → Prop} {d : Node} (hp : Exact n thr h c S d) : d.head = h ∨ d.head = h + 1 := by
+  rcases hp with hp | hp
+  · exact Or.inr hp.head
+  · exact Or.inl hp.2.1
+
+/-- a partial on `h + 1` enters the aggregator of a node that sits at `h` and caches nothing but round `h + 1` -/
+theorem exact_aggregate_core {n thr h c : Nat} {S : Nat → Prop} {d : Node}
+    (h1 : d.up = true) (h2 : d.head = h) (h3 : d.clock = c) (h4 : d.lastTick = c) (h5 : d.pending = [])
+    (h7 : ∀ r k, d.held r k = true → r = h + 1) (h8 : ∀ k, S k → d.held (h + 1) k = true) (src : Nat) :
+    Exact n thr h c (fun k => S k ∨ k = src) (d.aggregate n thr src (h + 1)) := by
+  rcases aggregate_cases n thr d src (h + 1) with ⟨hw, _⟩ | ⟨_, hcnt, he⟩ | ⟨_, _, hlt, _⟩ | ⟨_, _, he⟩
+  · exfalso; apply hw; have := Gen.partialCacheStoreLimit; omega
+  · right
+    rw [he]
+    refine ⟨h1, h2, h3, h4, h5, hcnt, ?_, ?_⟩
+    · intro r k hk
+      simp only [setHeld_held, addPartial, Bool.or_eq_true, Bool.and_eq_true, decide_eq_true_eq] at hk
+      rcases hk with hk | hk
+      · exact hk.1
+      · exact h7 r k hk
+    · intro k hk
+      simp only [setHeld_held, addPartial, Bool.or_eq_true, Bool.and_eq_true, decide_eq_true_eq]
+      rcases hk with hk | hk
+      · right; exact h8 k hk
+      · left; exact ⟨trivial, hk⟩
+  · omega
+  · left
+    rw [he, h4, h5]
+    have hcl : ∀ r k, flush (addPartial d.held (h + 1) src) (h + 1) r k = false := by
+      intro r k
+      by_cases hr : h + 1 < r
+      · have : addPartial d.held (h + 1) src r k = false := by
+          by_cases hx : addPartial d.held (h + 1) src r k = true
+          · exfalso
+            simp only [addPartial, Bool.or_eq_true, Bool.and_eq_true, decide_eq_true_eq] at hx
+            rcases hx with hx | hx
+            · omega
+            · have := h7 r k hx; omega
+          · simpa using hx
+        simp [flush, this]
+      · simp [flush, hr]
+    unfold nextPend
+    by_cases hl : h + 1 < c
+    · simp only [hl, if_true]
+      exact ⟨by simpa using h1, by simp, by simpa using h3, by simpa using h4, by simp, by simpa using hcl⟩
+    · simp only [hl, if_false]
+      exact ⟨by simpa using h1, by simp, by simpa using h3, by simpa using h4, by simpa using h5, by simpa using hcl⟩
+
+theorem exact_first {n thr h c : Nat} {d : Node} (hl : Lvl h c [] d) (i : Nat) :
+    Exact n thr h c (fun k => k = i) (d.aggregate n thr i (h + 1)) := by
+  have := exact_aggregate_core (n := n) (thr := thr) (S := fun _ => False) hl.up hl.head hl.clock hl.tick hl.pend
+    (fun r k hk => by rw [hl.clean r k] at hk; cases hk) (fun k hk => hk.elim) i
+  exact this.weaken (fun k hk => Or.inr hk)
+
+theorem exact_recvStep {n thr h c : Nat} {S : Nat → Prop} {d : Node} (hc : h < c) (hp : Exact n thr h c S d)
+    (reach : Bool) (m : Msg) (hm : reach = true → m.round ≤ h + 1) :
+    Exact n thr h c (fun k => S k ∨ (reach = true ∧ m.round = h + 1 ∧ k = m.src ∧ m.src ≠ m.dst))
+      (d.recvStep n thr reach m) := by
+  rcases recvStep_cases n thr reach d m with ⟨he, hne⟩ | ⟨hu, hr, hfut, hpast, hown, he⟩
+  · rw [he]
+    rcases hp with hp | ⟨h1, h2, h3, h4, h5, h6, h7, h8⟩
+    · exact Or.inl hp
+    · right
+      refine ⟨h1, h2, h3, h4, h5, h6, h7, ?_⟩
+      intro k hk
+      rcases hk with hk | ⟨hr, hround, _, hsd⟩
+      · exact h8 k hk
+      · exfalso; apply hne; refine ⟨h1, hr, ?_, ?_, hsd⟩ <;> omega
+  · rw [he]
+    have hround := hm hr
+    rcases hp with hp | ⟨h1, h2, h3, h4, h5, h6, h7, h8⟩
+    · exfalso; have := hp.head; omega
+    · have hrd : m.round = h + 1 := by omega
+      rw [hrd]
+      exact (exact_aggregate_core h1 h2 h3 h4 h5 h7 h8 m.src).weaken (fun k hk => by
+        rcases hk with hk | ⟨_, _, hk, _⟩
+        · exact Or.inl hk
+        · exact Or.inr hk)
+
+theorem exact_deliver {n thr h c : Nat} (conn : Nat → Nat → Bool) (j : Nat) (hc : h < c) :
+    ∀ (L : List Msg) (d : Node) (S : Nat → Prop), Exact n thr h c S d →
+      (∀ m ∈ L, m.dst = j → conn m.src m.dst = true → m.round ≤ h + 1) →
+      Exact n thr h c (fun k => S k ∨ ∃ m ∈ L, m.dst = j ∧ conn m.src j = true ∧ m.round = h + 1 ∧ m.src = k ∧ k ≠ j)
+        (L.foldl (fun d m => if m.dst = j then d.recvStep n thr (conn m.src m.dst) m else d) d) := by
+  intro L
+  induction L with
+  | nil => intro d S hp _; exact hp.weaken (fun k hk => by rcases hk with hk | ⟨m, hm, _⟩; exact hk; cases hm)
+  | cons m t ih =>
+    intro d S hp hq
+    simp only [List.foldl_cons]
+    have hq' : ∀ m' ∈ t, m'.dst = j → conn m'.src m'.dst = true → m'.round ≤ h + 1 :=
+      fun m' hm' => hq m' (by simp [hm'])
+    by_cases hj : m.dst = j
+    · simp only [hj, if_true]
+      have h1 := exact_recvStep hc hp (conn m.src j) m (fun hr => hq m (by simp) hj (by rw [hj]; exact hr))
+      refine (ih _ _ h1 hq').weaken ?_
+      intro k hk
+      rcases hk with hk | ⟨m', hm', h1, h2, h3, h4, h5⟩
+      · exact Or.inl (Or.inl hk)
+      · rcases List.mem_cons.mp hm' with he | hm''
+        · subst he
+          left; right
+          exact ⟨h2, h3, h4.symm, by rw [h4, hj]; exact h5⟩
+        · right; exact ⟨m', hm'', h1, h2, h3, h4, h5⟩
+    · simp only [hj, if_false]
+      refine (ih _ _ hp hq').weaken ?_
+      intro k hk
+      rcases hk with hk | ⟨m', hm', h1, h2, h3, h4, h5⟩
+      · exact Or.inl hk
+      · rcases List.mem_cons.mp hm' with he | hm''
+        · subst he; exact absurd h1 hj
+        · right; exact ⟨m', hm'', h1, h2, h3, h4, h5⟩
+
+theorem Exact.done {n thr h c : Nat} {S : Nat → Prop} {d : Node} (hp : Exact n thr h c S d) (U : List Nat)
+    (hn : U.Nodup) (hlt : ∀ i ∈ U, i < n) (hthr : thr ≤ U.length) (hS : ∀ i ∈ U, S i) :
+    Lvl (h + 1) c (nextPend h c) d := by
+  rcases hp with hp | ⟨_, _, _, _, _, h6, _, h8⟩
+  · exact hp
+  · exfalso
+    have := count_ge n d.held (h + 1) U hn (fun i hi => ⟨hlt i hi, h8 i (hS i hi)⟩)
+    omega
+
+
+/-- with all heads of the healthy side equal, a sync step of any node leaves its members alone (a request ends at most) -/
+theorem pull_uniform (s : State) (U : List Nat) (x : Nat) (hU : Side s U) (hx : ∀ j ∈ U, (s.node j).head = x)
+    (i j : Nat) (hj : j ∈ U) : (s.pull i).node j = s.node j ∨ (s.pull i).node j = (s.node j).setSync 0 := by
+  rcases pull_cases s i with he | he | ⟨_, hlt, v, he⟩ <;> rw [he]
+  · exact Or.inl rfl
+  · by_cases hji : j = i
+    · subst hji; right; simp
+    · left; exact setNode_other _ _ _ _ hji
+  · by_cases hji : j = i
+    · subst hji
+      exfalso
+      have : s.maxPeerHead j ≤ x := by
+        apply maxPeerHead_le
+        intro m hm hok
+        simp only [State.peerOk, Bool.and_eq_true] at hok
+        have hmU : m ∈ U := hU.closed j hj m hm hok.1.1.2 (Or.inr hok.1.2)
+        exact Nat.le_of_eq (hx m hmU)
+      have := hx j hj
+      omega
+    · left; exact setNode_other _ _ _ _ hji
+
+theorem foldl_pull_uniform (P : Nat → Node → Prop) (hP : ∀ j d v, P j d → P j (d.setSync v)) (U : List Nat) (x : Nat) :
+    ∀ (l : List Nat) (s : State), Side s U → (∀ j ∈ U, (s.node j).head = x) → (∀ j ∈ U, P j (s.node j)) →
+      Side (l.foldl State.pull s) U ∧ (∀ j ∈ U, ((l.foldl State.pull s).node j).head = x) ∧
+      ∀ j ∈ U, P j ((l.foldl State.pull s).node j) := by
+  intro l
+  induction l with
+  | nil => intro s h1 h2 h3; exact ⟨h1, h2, h3⟩
+  | cons a t ih =>
+    intro s h1 h2 h3
+    simp only [List.foldl_cons]
+    apply ih (s.pull a) (h1.ext (ext_pull s a))
+    · intro j hj
+      rcases pull_uniform s U x h1 h2 a j hj with he | he <;> rw [he]
+      · exact h2 j hj
+      · exact h2 j hj
+    · intro j hj
+      rcases pull_uniform s U x h1 h2 a j hj with he | he <;> rw [he]
+      · exact h3 j hj
+      · exact hP j _ 0 (h3 j hj)
+
+theorem foldl_recv_msgs : ∀ (l : List Msg) (s : State), (l.foldl State.recv s).msgs = s.msgs := by
+  intro l
+  induction l with
+  | nil => intro s; rfl
+  | cons a t ih => intro s; simp only [List.foldl_cons]; rw [ih]; simp [State.recv]
+
+/-- the invariant of the catch-up chain between two sub-rounds -/
+structure Chain (s : State) (U : List Nat) (h c : Nat) (P : List Nat) : Prop where
+  side : Side s U
+  lvl : ∀ j ∈ U, Lvl h c P (s.node j)
+  msgs : s.msgs = []
+
+/-- the settle phase, exactly: every member of the healthy side ends the sub-round storing `h + 1`, with the catch-up
+goroutine for `h + 2` asleep iff `h + 1` is still behind the ticked round, an empty cache and nothing in flight -/
+theorem settle_exact (s : State) (U : List Nat) (h c x : Nat) (hU : Side s U) (hthr : s.thr ≤ U.length) (hc : h < c)
+    (hx : ∀ j ∈ U, (s.node j).head = x)
+    (hE : ∀ j ∈ U, Exact s.n s.thr h c (fun k => k = j) (s.node j))
+    (hq : ∀ m ∈ s.msgs, m.dst ∈ U → s.conn m.src m.dst = true → m.round ≤ h + 1)
+    (hm : ∀ i ∈ U, ∀ j ∈ U, i ≠ j → (⟨i, j, h + 1⟩ : Msg) ∈ s.msgs) :
+    Chain s.settle U (h + 1) c (nextPend h c) := by
+  -- syncs pull: nothing moves
+  obtain ⟨b1, b2, b3, b4⟩ := foldl_pull_frame (List.range s.n) s
+  obtain ⟨hB1, _, hB3⟩ := foldl_pull_uniform (fun j d => Exact s.n s.thr h c (fun k => k = j) d)
+    (fun j d v hp => hp.setSync v) U x (List.range s.n) s hU hx hE
+  -- deliveries
+  have hC : ∀ j ∈ U, Lvl (h + 1) c (nextPend h c) (((List.range s.n).foldl State.pull s).deliverAll.node j) := by
+    intro j hj
+    obtain ⟨c1, c2, c3, c4⟩ := foldl_recv j ((List.range s.n).foldl State.pull s).msgs { ((List.range s.n).foldl State.pull s) with msgs := [] }
+    unfold State.deliverAll
+    rw [c4]
+    simp only [b1, b2, b3, b4]
+    have hD := exact_deliver (n := s.n) (thr := s.thr) s.conn j hc s.msgs _ _ (hB3 j hj)
+      (fun m hm hd hcn => hq m hm (hd ▸ hj) hcn)
+    refine hD.done U hU.nodup hU.lt hthr ?_
+    intro i hi
+    by_cases hij : i = j
+    · exact Or.inl hij
+    · right
+      exact ⟨⟨i, j, h + 1⟩, hm i hi j hj hij, rfl, hU.conn i hi j hj, rfl, rfl, hij⟩
+  have hCside : Side ((List.range s.n).foldl State.pull s).deliverAll U := hB1.ext (ext_deliverAll _)
+  have hCmsgs : ((List.range s.n).foldl State.pull s).deliverAll.msgs = [] := by
+    unfold State.deliverAll; rw [foldl_recv_msgs]
+  -- syncs pull again: nothing moves
+  obtain ⟨hD1, _, hD3⟩ := foldl_pull_uniform (fun _ d => Lvl (h + 1) c (nextPend h c) d)
+    (fun j d v hp => ⟨hp.up, hp.head, hp.clock, hp.tick, hp.pend, hp.clean⟩) U (h + 1)
+    (List.range ((List.range s.n).foldl State.pull s).deliverAll.n) _ hCside (fun j hj => (hC j hj).head) hC
+  exact ⟨hD1, hD3, by
+    have := (foldl_pull_frame (List.range ((List.range s.n).foldl State.pull s).deliverAll.n) ((List.range s.n).foldl State.pull s).deliverAll).2.2.2
+    exact this.trans hCmsgs⟩
+
+
+private theorem filter_eq_range (j : Nat) : ∀ n, ((List.range n).filter (fun k => decide (k = j))).length = if j < n then 1 else 0 := by
+  intro n
+  induction n with
+  | zero => simp
+  | succ m ih =>
+    rw [List.range_succ, List.filter_append, List.length_append, ih]
+    by_cases h1 : j < m
+    · have : ¬ m = j := by omega
+      simp [h1, this]; omega
+    · by_cases h2 : m = j
+      · subst h2; simp
+      · have : ¬ j < m + 1 := by omega
+        simp [h1, h2, this]
+
+theorem count_single (n r j : Nat) (held : Nat → Nat → Bool) (hcl : ∀ r k, held r k = false) (hj : j < n) :
+    count n (addPartial held r j) r = 1 := by
+  unfold count
+  have : (fun k => addPartial held r j r k) = (fun k => decide (k = j)) := by
+    funext k; simp [addPartial, hcl]
+  rw [this, filter_eq_range j n]; simp [hj]
+
+/-- the own partial of a levelled node: it stays at `h` when more signers are needed, else it stores `h + 1` at once -/
+theorem agg_first_head {n thr h c : Nat} {d : Node} (hl : Lvl h c [] d) (j : Nat) (hj : j < n) :
+    (d.aggregate n thr j (h + 1)).head = if 1 < thr then h else h + 1 := by
+  have hcnt := count_single n (h + 1) j d.held hl.clean hj
+  rcases aggregate_cases n thr d j (h + 1) with ⟨hw, _⟩ | ⟨_, hc2, he⟩ | ⟨_, _, hlt, _⟩ | ⟨hc4, _, he⟩
+  · exfalso; apply hw; have := hl.head; have := Gen.partialCacheStoreLimit; omega
+  · rw [he, hcnt] at *; simp [hc2, hl.head]
+  · have := hl.head; omega
+  · rw [hcnt] at hc4
+    have : ¬ 1 < thr := by omega
+    rw [he]; simp only [this, if_false]
+    split <;> simp
+
+theorem fireStep_msgs {n thr i : Nat} {d : Node} {m : Msg} (hm : m ∈ (d.fireStep n thr i).2) : d.up = true ∧ m.src = i := by
+  unfold Node.fireStep at hm
+  by_cases hu : d.up = true
+  · simp only [hu, Bool.not_true, Bool.false_eq_true, if_false] at hm
+    split at hm
+    · cases hm
+    · exact ⟨hu, (mem_others.mp hm).1⟩
+  · simp [hu] at hm
+
+theorem fireSteps_msgs {n thr i : Nat} : ∀ (c : Nat) (d : Node) (m : Msg), m ∈ (Node.fireSteps n thr i c d).2 → d.up = true ∧ m.src = i := by
+  intro c
+  induction c with
+  | zero => intro d m hm; simp [Node.fireSteps] at hm
+  | succ k ih =>
+    intro d m hm
+    simp only [Node.fireSteps, List.mem_append] at hm
+    rcases hm with hm | hm
+    · exact fireStep_msgs hm
+    · have := ih _ m hm
+      exact ⟨(next_fireStep n thr i d).1 ▸ this.1, this.2⟩
+
+/-- the wake-up of the one catch-up goroutine of a node of the chain -/
+theorem fireNode_lvl {n thr h c : Nat} {d : Node} (hl : Lvl h c [h] d) (j : Nat) :
+    (Node.fireSteps n thr j d.pending.length d).1 = (d.setPending []).aggregate n thr j (h + 1) ∧
+    (Node.fireSteps n thr j d.pending.length d).2 = others n j (h + 1) := by
+  have hp := hl.pend
+  have hu := hl.up
+  rw [hp]
+  simp [Node.fireSteps, Node.fireStep, hu, hp, Node.broadcast]
+
+/-- **one catch-up sub-round**: the chain advances by exactly one round -/
+theorem catch_sub (s : State) (U : List Nat) (h c : Nat) (hthr : s.thr ≤ U.length) (hc : h < c)
+    (hch : Chain s U h c [h]) : Chain s.fairCatch U (h + 1) c (nextPend h c) := by
+  obtain ⟨a1, a2, a3, a4, a5⟩ := foldl_act (fun n thr i d => Node.fireSteps n thr i d.pending.length d) (List.range s.n) s List.nodup_range
+  have hU := hch.side
+  have hA : Ext s (s.forAll State.fireNode) := ext_forAll _ _ ext_fireNode
+  have hnode : ∀ j ∈ U, (s.forAll State.fireNode).node j = ((s.node j).setPending []).aggregate s.n s.thr j (h + 1) := by
+    intro j hj
+    have := a4 j
+    simp only [List.mem_range, hU.lt j hj, if_true] at this
+    exact this.trans (fireNode_lvl (hch.lvl j hj) j).1
+  have hl0 : ∀ j ∈ U, Lvl h c [] ((s.node j).setPending []) := fun j hj =>
+    ⟨(hch.lvl j hj).up, (hch.lvl j hj).head, (hch.lvl j hj).clock, (hch.lvl j hj).tick, rfl, (hch.lvl j hj).clean⟩
+  have hmsgs : (s.forAll State.fireNode).msgs = s.msgs ++ (List.range s.n).flatMap (fun i => (Node.fireSteps s.n s.thr i (s.node i).pending.length (s.node i)).2) := a5
+  refine settle_exact (s.forAll State.fireNode) U h c (if 1 < s.thr then h else h + 1) (hU.ext hA) (by rw [hA.thr]; exact hthr) hc ?_ ?_ ?_ ?_
+  · intro j hj; rw [hnode j hj]; exact agg_first_head (hl0 j hj) j (hU.lt j hj)
+  · intro j hj; rw [hnode j hj, hA.n, hA.thr]; exact exact_first (hl0 j hj) j
+  · intro m hm hd hcn
+    rw [hmsgs, hch.msgs, List.nil_append] at hm
+    obtain ⟨i, hi, hmi⟩ := List.mem_flatMap.mp hm
+    have hf := fireSteps_msgs _ _ m hmi
+    rw [hA.conn] at hcn
+    have hiU : i ∈ U := hU.closed m.dst hd i (List.mem_range.mp hi) hf.1 (Or.inl (hf.2 ▸ hcn))
+    rw [(fireNode_lvl (hch.lvl i hiU) i).2] at hmi
+    rw [(mem_others.mp hmi).2.1]; exact Nat.le_refl _
+  · intro i hi j hj hij
+    rw [hmsgs]
+    apply List.mem_append.mpr; right
+    apply List.mem_flatMap.mpr
+    refine ⟨i, List.mem_range.mpr (hU.lt i hi), ?_⟩
+    rw [(fireNode_lvl (hch.lvl i hi) i).2]
+    exact mem_others.mpr ⟨rfl, rfl, hU.lt j hj, fun e => hij e.symm⟩
+
+/-- a levelled, quiet healthy side just before a tick -/
+structure Start (s : State) (U : List Nat) (h c : Nat) : Prop where
+  side : Side s U
+  head : ∀ j ∈ U, (s.node j).head = h
+  clock : ∀ j ∈ U, (s.node j).clock + 1 = c
+  pend : ∀ j ∈ U, (s.node j).pending = []
+  clean : ∀ j ∈ U, ∀ r k, (s.node j).held r k = false
+  msgs : s.msgs = []
+
+theorem tickStep_lvl {n thr h c : Nat} {d : Node} (hu : d.up = true) (hcl : d.clock = c) (hh : d.head = h) (hc : h < c)
+    (j : Nat) :
+    ((d.tickStep n thr j).1 = (d.setTick c).aggregate n thr j (h + 1) ∨
+      ∃ v, (d.tickStep n thr j).1 = ((d.setTick c).aggregate n thr j (h + 1)).setSync v) ∧
+    (d.tickStep n thr j).2 = others n j (h + 1) := by
+  unfold Node.tickStep
+  simp only [hu, Bool.not_true, Bool.false_eq_true, if_false, Node.broadcast, hcl, hh, bnpRound_behind hc]
+  split
+  · exact ⟨Or.inr ⟨_, rfl⟩, rfl⟩
+  · exact ⟨Or.inl rfl, rfl⟩
+
+/-- **the tick sub-round** from a levelled quiet state: every member stores `h + 1` and the chain is set up -/
+theorem tick_sub (s : State) (U : List Nat) (h c : Nat) (hthr : s.thr ≤ U.length) (hc : h < c)
+    (hst : Start s U h c) : Chain s.fairTick U (h + 1) c (nextPend h c) := by
+  obtain ⟨a1, a2, a3, a4, a5⟩ := foldl_act (fun n thr i => Node.tickStep n thr i) (List.range s.advance.n) s.advance List.nodup_range
+  have hU := hst.side
+  have hU0 : Side s.advance U := ⟨hU.nodup, hU.lt, hU.up, hU.conn, hU.closed⟩
+  have hA : Ext s.advance (s.advance.forAll State.tick) := ext_forAll _ _ ext_tick
+  have hts : ∀ j ∈ U, _ := fun j hj => tickStep_lvl (n := s.n) (thr := s.thr) (d := s.advance.node j) (hU.up j hj)
+    (hst.clock j hj) (hst.head j hj) hc j
+  have hl0 : ∀ j ∈ U, Lvl h c [] ((s.advance.node j).setTick c) := fun j hj =>
+    ⟨hU.up j hj, hst.head j hj, hst.clock j hj, rfl, hst.pend j hj, hst.clean j hj⟩
+  have hnode : ∀ j ∈ U, (s.advance.forAll State.tick).node j = (Node.tickStep s.n s.thr j (s.advance.node j)).1 := by
+    intro j hj
+    have := a4 j
+    simp only [List.mem_range, show j < s.advance.n from hU.lt j hj, if_true] at this
+    exact this
+  have hmsgs : (s.advance.forAll State.tick).msgs = s.msgs ++ (List.range s.n).flatMap (fun i => (Node.tickStep s.n s.thr i (s.advance.node i)).2) := a5
+  have hres := settle_exact (s.advance.forAll State.tick) U h c (if 1 < s.thr then h else h + 1) (hU0.ext hA)
+    (by rw [hA.thr]; exact hthr) hc ?_ ?_ ?_ ?_
+  · exact hres
+  · intro j hj
+    rw [hnode j hj]
+    rcases (hts j hj).1 with he | ⟨v, he⟩ <;> rw [he]
+    · exact agg_first_head (hl0 j hj) j (hU.lt j hj)
+    · exact agg_first_head (hl0 j hj) j (hU.lt j hj)
+  · intro j hj
+    rw [hnode j hj, hA.n, hA.thr]
+    rcases (hts j hj).1 with he | ⟨v, he⟩ <;> rw [he]
+    · exact exact_first (hl0 j hj) j
+    · exact (exact_first (hl0 j hj) j).setSync v
+  · intro m hm hd hcn
+    rw [hmsgs, hst.msgs, List.nil_append] at hm
+    obtain ⟨i, hi, hmi⟩ := List.mem_flatMap.mp hm
+    have hf := tickStep_msgs hmi
+    rw [hA.conn] at hcn
+    have hiU : i ∈ U := hU.closed m.dst hd i (List.mem_range.mp hi) hf.1 (Or.inl (hf.2.1 ▸ hcn))
+    rw [(hts i hiU).2] at hmi
+    rw [(mem_others.mp hmi).2.1]; exact Nat.le_refl _
+  · intro i hi j hj hij
+    rw [hmsgs]
+    apply List.mem_append.mpr; right
+    apply List.mem_flatMap.mpr
+    refine ⟨i, List.mem_range.mpr (hU.lt i hi), ?_⟩
+    rw [(hts i hi).2]
+    exact mem_others.mpr ⟨rfl, rfl, hU.lt j hj, fun e => hij e.symm⟩
+
+theorem chain_catchN (U : List Nat) (c : Nat) : ∀ (k : Nat) (s : State) (h : Nat), s.thr ≤ U.length →
+    Chain s U h c (if h < c then [h] else []) → h + k = c → ∀ j ∈ U, ((s.fairCatchN k).node j).head = c := by
+  intro k
+  induction k with
+  | zero => intro s h _ hch hk j hj; simp only [State.fairCatchN]; rw [(hch.lvl j hj).head]; omega
+  | succ m ih =>
+    intro s h hthr hch hk j hj
+    have hc : h < c := by omega
+    simp only [hc, if_true] at hch
+    have := catch_sub s U h c hthr hc hch
+    simp only [State.fairCatchN]
+    exact ih s.fairCatch (h + 1) (by rw [(ext_fairCatch s).thr]; exact hthr) this (by omega) j hj
+
+/-- **Catch-up.** From a levelled quiet healthy side `U` (|U| ≥ thr, all heads `h`, nothing cached or in flight) that is
+`c − h` rounds behind the round `c` its clocks are about to show, one fair round — the tick sub-round followed by
+`c − h − 1` catch-up sub-rounds, each one CatchupPeriod long — brings every member to exactly `c`: one round per
+sub-round, none skipped. -/
+theorem c05_catchup (s : State) (U : List Nat) (h c : Nat) (hthr : s.thr ≤ U.length) (hc : h < c)
+    (hst : Start s U h c) : ∀ j ∈ U, ((s.fairRound (c - h - 1)).node j).head = c := by
+  have h1 := tick_sub s U h c hthr hc hst
+  have hthr' : s.fairTick.thr ≤ U.length := by
+    have : Ext s.advance s.fairTick := Ext.trans (ext_forAll _ _ ext_tick) (ext_settle _)
+    rw [this.thr]; exact hthr
+  exact chain_catchN U c (c - h - 1) s.fairTick (h + 1) hthr' h1 (by omega)
 
 end Drand.Net
